@@ -28,8 +28,14 @@ import (
 // cover "both drivers" with the genuine article.
 
 type jsonDiag struct {
-	Posn    string `json:"posn"`
-	Message string `json:"message"`
+	Category string `json:"category"`
+	Posn     string `json:"posn"`
+	Message  string `json:"message"`
+	Related  []struct {
+		Posn    string `json:"posn"`
+		Message string `json:"message"`
+	} `json:"related"`
+	Fixes []json.RawMessage `json:"suggested_fixes"`
 }
 
 var posnRe = regexp.MustCompile(`^(.*):(\d+):(\d+)$`)
@@ -83,7 +89,17 @@ func parseTree(out []byte, root string) (*driver.Outcome, error) {
 					}
 					line, _ := strconv.Atoi(m[2])
 					col, _ := strconv.Atoi(m[3])
-					o.Diags[path] = append(o.Diags[path], driver.Diag{Analyzer: an, File: strings.TrimPrefix(m[1], root), Line: line, Col: col, Msg: d.Message})
+					var rest strings.Builder
+					for _, r := range d.Related {
+						fmt.Fprintf(&rest, "related=%s %q;", strings.TrimPrefix(r.Posn, root), r.Message)
+					}
+					if len(d.Fixes) > 0 {
+						fmt.Fprintf(&rest, "fixes=%d;", len(d.Fixes))
+					}
+					if d.Category != "" {
+						fmt.Fprintf(&rest, "category=%s;", d.Category)
+					}
+					o.Diags[path] = append(o.Diags[path], driver.Diag{Analyzer: an, File: strings.TrimPrefix(m[1], root), Line: line, Col: col, Msg: d.Message, Rest: rest.String()})
 				}
 			}
 		}
